@@ -1,0 +1,14 @@
+//go:build verif
+
+package inverted
+
+// Verification hooks, only compiled with the verif build tag. They expose the
+// unexported sortable encoders to the verification harness.
+
+func VerifToByteSortable[T Invertable](v T) ([]byte, error) {
+	return toByteSortable(v)
+}
+
+func VerifFromByteSortable[T Invertable](b []byte, v *T) error {
+	return fromByteSortable(b, v)
+}
